@@ -21,6 +21,8 @@ RULES = [
     Rule('C09.R2', 'loop-start / loop-end callbacks are invoked at the sites where the loop flags are consumed', 3),
     Rule('C09.R3', 'loop callbacks registered by the user are stored only by their setter or from the hooks twin', 8),
     Rule('C09.R4', 'loop markers are recognised case-insensitively, validated with their own duplicate flags, and the repeat counter is re-armed on rewind', 8),
+    Rule('C09.R6', 'a loop begin position is always a snapshot taken at the beginning of a row, before any track of that row has advanced', 3),
+    Rule('C09.R7', 'recognising a loop marker does not switch off the recognition of the next marker of the same kind (the duplicate-marker validation must see every marker)', 3),
     Rule('C09.R5', 'loop markers raise the loop flags only while looping is enabled', 2),
 ]
 EXPLANATION = ('CFG dominance / post-dominance over BW_MidiSequencer::processEvents (jump sites vs. the counted controller-123 loops), guard facts for the '
@@ -156,6 +158,8 @@ def analyse(facts, tier):
     # ---- R4
     obls += r4(facts)
     obls += r5_enabled(facts)
+    obls += r6_row_snapshot(facts)
+    obls += r7_idempotent(facts)
     return obls
 
 
@@ -283,4 +287,113 @@ def r5_enabled(facts):
                                'a loop marker raises %s although looping is disabled: processEvents ends (or jumps) at the marker and the rest of the song is never delivered' % short(strip(ap[0])['n'])))
     if len(out) < 2:
         raise build.AnalysisBroken('C09.R5: loop-flag stores of handleEvent not found')
+    return out
+
+
+def r6_row_snapshot(facts):
+    """the position a loop jumps back to (m_loopBeginPosition, LoopStackEntry::startPosition) must describe the beginning of the row
+    that holds the loop-start marker: every track still in front of its events of that row.  The row loops advance the running
+    position track by track, so the stored value must be a const local copy of the running position that is declared outside the
+    per-track loop (at the top of the row), not the running position itself: otherwise the events that tracks with lower numbers
+    have on the loop-start tick are skipped on every pass after the first."""
+    out = []
+    n = 0
+    for fname in ('buildTimeLine', 'processEvents'):
+        fn = facts.fn(SEQ + '::' + fname)
+        # const Position locals and the nesting of their declarations
+        snaps = {}
+        def rec(t, anc):
+            if isinstance(t, dict):
+                if t.get('k') == 'DeclStmt':
+                    for v in t.get('decls', []):
+                        ty = v.get('t') or {}
+                        if ty.get('const') and 'Position' in (ty.get('s') or '') and not ty.get('p') and not ty.get('ref') and v.get('init') is not None:
+                            snaps[v['id']] = (v, [a.get('k') for a in anc])
+                for k, v in t.items():
+                    if isinstance(v, (dict, list)) and k in ('body', 'then', 'else', 'sub', 'init'):
+                        rec(v, anc + [t])
+            elif isinstance(t, list):
+                for y in t:
+                    rec(y, anc)
+        rec(fn.tree, [])
+        for b, j, st in fn.cfg.stmts():
+            for x in walk(st['s']):
+                ap = assign_parts(x)
+                if not ap:
+                    continue
+                t = strip(ap[0])
+                if not (t.get('k') == 'MemberExpr' and short(t['n']) in ('m_loopBeginPosition', 'startPosition') and 'Position' in ((t.get('t') or {}).get('s') or '')):
+                    continue
+                n += 1
+                r = strip(ap[1])
+                while r is not None and r.get('ctor') and len(r.get('a', [])) == 1:
+                    r = strip(r['a'][0])
+                ok = r is not None and r.get('k') == 'DeclRefExpr' and r.get('id') in snaps and 'ForStmt' not in snaps[r['id']][1]
+                if not ok and fname == 'buildTimeLine' and not fn.cfg.reaches(b, b) and r is not None and r.get('k') == 'MemberExpr' and short(r['n']) == 'm_currentPosition':
+                    out.append(Obl('C09.R6', fn.name, '%s = %s' % (short(t['n']), show(ap[1])[:30]), st['loc'], 'discharged',
+                                   why='initial value outside the row loops: the position of the song begin, no track has advanced', nontrivial=False))
+                    continue
+                why = 'const row-begin copy %s declared outside the per-track loop' % short(r.get('n', '')) if ok else \
+                    ('%s is not a const snapshot taken at the top of the row: the stored loop begin already has the tracks in front of it advanced past their events of the loop-start tick, which are then skipped on every later pass' % show(ap[1])[:40])
+                out.append(Obl('C09.R6', fn.name, '%s = %s' % (short(t['n']), show(ap[1])[:30]), st['loc'], 'discharged' if ok else 'finding', why=why))
+    if n < 3:
+        raise build.AnalysisBroken('C09.R6: stores of the loop begin positions not found (%d)' % n)
+    return out
+
+
+# reviewed exception of C09.R7: the CC110 arm is the HMI format detector: the first CC110 selects the HMI dialect (CC110 = start,
+# CC111 = end) and a second one is defined to mean "this is EMIDI, where CC110/111 are no loop points at all"
+R7_LATCH_OK = {110: 'HMI dialect latch: a repeated CC110 re-classifies the file as EMIDI (no controller loop points)'}
+
+
+def r7_idempotent(facts):
+    """parseEvent turns marker texts and loop controllers into ST_LOOP* events; buildSmfTrackData then validates them (duplicate
+    start / end -> the whole song loops).  That validation only works if every marker is converted: an arm that converts a marker
+    must not store to a member that one of its own guards reads, otherwise the first marker disables the conversion of the next."""
+    out = []
+    pv = facts.fn(SEQ + '::parseEvent')
+    enum = {}
+    for b, ex, loc in pv.cfg.exprs():
+        for x in walk(ex):
+            if x.get('k') == 'DeclRefExpr' and x.get('enumc') and 'c' in x:
+                enum[short(x['n'])] = x['c']
+    loopvals = {v for k, v in enum.items() if k.startswith('ST_LOOP')}
+    n = 0
+    for b, j, st in pv.cfg.stmts():
+        for x in walk(st['s']):
+            ap = assign_parts(x)
+            if not (ap and strip(ap[0]).get('k') == 'MemberExpr' and short(strip(ap[0])['n']) == 'subtype' and const_of(ap[1]) in loopvals):
+                continue
+            n += 1
+            gf = guard_facts(pv, b, st)
+            reads = set()
+            case = None
+            for f in gf:
+                body = f[1] if f[0] in ('truth', 'case') else ([f[2], f[3]] if f[0] == 'cmp' else [])
+                for y in walk(body):
+                    if y.get('k') == 'MemberExpr' and strip(y.get('b')).get('k') == 'CXXThisExpr':
+                        reads.add(short(y['n']))
+                if f[0] == 'case' and len(f[2]) == 1:
+                    case = list(f[2])[0]
+            # stores of members in the same arm = statements of blocks with the same guard facts
+            key = sorted(fact_str(f) for f in gf)
+            stored = {}
+            for b2, j2, st2 in pv.cfg.stmts():
+                if b2 != b and sorted(fact_str(f) for f in guard_facts(pv, b2, st2)) != key:
+                    continue
+                for y in walk(st2['s']):
+                    ap2 = assign_parts(y)
+                    if ap2 and strip(ap2[0]).get('k') == 'MemberExpr' and strip(strip(ap2[0]).get('b')).get('k') == 'CXXThisExpr':
+                        stored[short(strip(ap2[0])['n'])] = st2['loc']
+            clash = sorted(set(stored) & reads)
+            if clash and case in R7_LATCH_OK:
+                out.append(Obl('C09.R7', pv.name, 'marker arm (controller %s) stores %s' % (case, ', '.join(clash)), st['loc'], 'discharged',
+                               why='reviewed: ' + R7_LATCH_OK[case], nontrivial=False))
+                continue
+            out.append(Obl('C09.R7', pv.name, 'marker arm -> subtype %s%s' % (const_of(ap[1]), (' (controller %s)' % case) if case is not None else ''), st['loc'],
+                           'finding' if clash else 'discharged',
+                           why='the arm stores %s, which its own guard reads: after the first marker the next one of the same kind is no longer converted, so a duplicated marker is never seen by the validation and the song loops over the first marker instead of as a whole' % ', '.join(clash) if clash else
+                           'stores no member its guards read (%s)' % (', '.join(sorted(reads)) or 'none')))
+    if n < 3:
+        raise build.AnalysisBroken('C09.R7: marker conversion arms of parseEvent not found (%d)' % n)
     return out
